@@ -390,6 +390,18 @@ func augmentOriginalFile(file *ast.File, overrides map[string]overrideInfo) {
 						d.Specs[j] = nil
 					}
 				case *ast.ValueSpec:
+					if isPositionalConstDecl(d) {
+						// The specs of this constant group depend on their position
+						// (iota or implicit repetition of the previous expression).
+						// Removing one would change the values of its neighbours,
+						// so keep the slot and only blank the overridden names.
+						for _, name := range s.Names {
+							if _, ok := overrides[name.Name]; ok {
+								name.Name = `_`
+							}
+						}
+						continue
+					}
 					if len(s.Names) == len(s.Values) {
 						// multi-value context
 						// e.g. var a, b = 2, foo[int]()
@@ -440,6 +452,37 @@ func augmentOriginalFile(file *ast.File, overrides map[string]overrideInfo) {
 		finalizeRemovals(file)
 		pruneImports(file)
 	}
+}
+
+// isPositionalConstDecl determines if the declaration is a group of constants
+// in which a constant's value depends on the position of its specification,
+// i.e. the group uses iota or the implicit repetition of an expression.
+func isPositionalConstDecl(d *ast.GenDecl) bool {
+	if d.Tok != token.CONST || len(d.Specs) < 2 {
+		return false
+	}
+	positional := false
+	for _, spec := range d.Specs {
+		s, ok := spec.(*ast.ValueSpec)
+		if !ok {
+			continue
+		}
+		if len(s.Values) == 0 {
+			return true
+		}
+		for _, v := range s.Values {
+			if v == nil {
+				continue // already removed, waiting for finalizeRemovals.
+			}
+			ast.Inspect(v, func(n ast.Node) bool {
+				if id, ok := n.(*ast.Ident); ok && id.Name == `iota` {
+					positional = true
+				}
+				return !positional
+			})
+		}
+	}
+	return positional
 }
 
 // isOnlyImports determines if this file is empty except for imports.
